@@ -70,6 +70,10 @@ def step (r : BufReader) (ws : List String) : BufReader × String :=
       let (cur, c, hung) := scanCount new (fileChunks 1024 (stream.length + 1) stream) 0 0 0xffff
       (r, s!"scan cur={cur} c={c} hung={if hung then 1 else 0}")
     | none => (r, "bad-op")
+  | ["fnext", bs, st, cnt] =>
+    match parseBytes bs, st.toNat?, cnt.toNat? with
+    | some b, some s, some c => (r, showMsgs (readAll c ⟨b, s⟩) false)
+    | _, _, _ => (r, "bad-op")
   | ["fpos", bs, st, idx] =>
     match parseBytes bs, st.toNat?, idx.toNat? with
     | some b, some s, some i =>
@@ -106,6 +110,12 @@ def spec (ws : List String) : String :=
       let ms := (specDecode s.length s).take 0xffff
       s!"scan cur={ms.flatten.length} c={ms.length} hung=0"
     | none => "-"
+  | ["fnext", bs, st, cnt] =>
+    match parseBytes bs, st.toNat?, cnt.toNat? with
+    | some b, some s, some c =>
+      let t := b.drop s
+      showMsgs ((specDecode t.length t).take c) false
+    | _, _, _ => "-"
   | ["fpos", bs, st, idx] =>
     match parseBytes bs, st.toNat?, idx.toNat? with
     | some b, some s, some i =>
